@@ -1,10 +1,12 @@
 import Proofs.Lemmas.OMap
 import Proofs.Lemmas.Pattern
 import Proofs.Lemmas.Run
+import Proofs.Lemmas.SortTie
 import Proofs.C20Sites
 import Generated.C20MapRanges
 import Generated.C20PkgState
 import Generated.C20Resets
+import Generated.C20Sorts
 /-!
 # C20 — sequential programs are deterministic and leave nothing behind for the next VM
 
@@ -23,7 +25,7 @@ by hand (`Proofs/C20Sites.lean`). The repetition / history search of the harness
 interpreter independently of all of this.
 -/
 namespace C20
-open Model.OMap Proofs.OMap Proofs.Pattern Model.Run Proofs.Run Model.Sites
+open Model.OMap Proofs.OMap Proofs.Pattern Model.Run Proofs.Run Model.Sites Model.SortKeys Proofs.SortTie
 
 /-! ## (i) the ordered property store -/
 
@@ -213,6 +215,92 @@ example : ([1, 2, 3] : List Nat) = [1, 2, 3] :=
 example : ([3, 1, 2] : List Nat).find? (fun x => x == 1) = [2, 3, 1].find? (fun x => x == 1) :=
   Pattern_unique_perm _ (by decide) (by decide)
 
+/-! ### collect in map order, then sort: when does the map order still show? (round 5)
+
+`Pattern_sort_perm` above needs "the order has no ties on the collected entries" as a hypothesis; the
+classification table used to grant it by hand to every loop followed by a sort. The theorems below say
+exactly when it holds, in terms of what can be read off the comparator, and that it is *necessary*:
+with a tie the result depends on the collection order. `C20_sorts_over_map_order_tie_free` checks the
+comparator of every such sort of the tree on every run. -/
+
+/-- **The comparator orders the elements themselves** (`keys[i] < keys[j]`, `sort.Strings(keys)`): for
+a strict total order every collection order gives the same sorted slice — no hypothesis on the
+collected elements at all. -/
+theorem Pattern_sort_whole_perm {α : Type} {lt : α → α → Bool} (h : StrictTotal lt) {l₁ l₂ : List α}
+    (hp : l₁.Perm l₂) : sortSlice lt l₁ = sortSlice lt l₂ := by
+  apply sortSlice_perm_of_no_tie (strictTotal_strictWeak h) hp
+  intro a _ b _ t
+  exact (byKey_tie_iff h id a b).1 t
+
+/-- **NEGATIVE — a tie shows the collection order.** Whenever the comparator cannot tell two
+*different* collected elements apart there are two collection orders of the same elements that give
+different sorted slices: the sort is stable on them (Go's `sort.Slice` is insertion sort below 12
+elements), so the tied pair stays in map order. -/
+theorem Pattern_sort_tie_depends {α : Type} [DecidableEq α] {less : α → α → Bool} (h : StrictWeak less)
+    {l : List α} (hn : l.Nodup) {a b : α} (ha : a ∈ l) (hb : b ∈ l) (hab : a ≠ b) (ht : tie less a b) :
+    ∃ l₁ l₂ : List α, l₁.Perm l ∧ l₂.Perm l ∧ sortSlice less l₁ ≠ sortSlice less l₂ :=
+  sortSlice_tie_depends h hn ha hb hab ht
+
+/-- **Characterisation.** For the (distinct) entries of a Go map and any comparator `sort.Slice`
+accepts: the sorted result is independent of the collection order **iff** the comparator never ties on
+two different entries. -/
+theorem Pattern_sort_perm_iff {α : Type} [DecidableEq α] {less : α → α → Bool} (h : StrictWeak less)
+    {l : List α} (hn : l.Nodup) :
+    (∀ l₁ l₂ : List α, l₁.Perm l → l₂.Perm l → sortSlice less l₁ = sortSlice less l₂) ↔
+    (∀ a ∈ l, ∀ b ∈ l, tie less a b → a = b) := by
+  constructor
+  · intro hall a ha b hb ht
+    by_cases hab : a = b
+    · exact hab
+    · obtain ⟨l₁, l₂, p₁, p₂, ne⟩ := sortSlice_tie_depends h hn ha hb hab ht
+      exact absurd (hall l₁ l₂ p₁ p₂) ne
+  · intro hnt l₁ l₂ p₁ p₂
+    apply sortSlice_perm_of_no_tie h (p₁.trans p₂.symm)
+    intro a ha b hb
+    exact hnt a (p₁.mem_iff.1 ha) b (p₁.mem_iff.1 hb)
+
+/-- **Sorting through a key** (`numericSortKey(ki) < numericSortKey(kj)`, `len(ki) > len(kj)`,
+`ms[i].GetName() < ms[j].GetName()`): independent of the collection order **iff** the key function is
+injective on the collected entries. This is what has to be argued for every comparator of shape
+`derived` (`C20Sites.sortArgued`). -/
+theorem Pattern_sort_key_perm_iff {α ν : Type} [DecidableEq α] {lt : ν → ν → Bool} (h : StrictTotal lt)
+    (f : α → ν) {l : List α} (hn : l.Nodup) :
+    (∀ l₁ l₂ : List α, l₁.Perm l → l₂.Perm l → sortSlice (byKey lt f) l₁ = sortSlice (byKey lt f) l₂) ↔
+    (∀ a ∈ l, ∀ b ∈ l, f a = f b → a = b) := by
+  rw [Pattern_sort_perm_iff (byKey_strictWeak h f) hn]
+  constructor
+  · intro hh a ha b hb e; exact hh a ha b hb ((byKey_tie_iff h f a b).2 e)
+  · intro hh a ha b hb t; exact hh a ha b hb ((byKey_tie_iff h f a b).1 t)
+
+/-- **`ksort` / `krsort` as coded at the pinned tree** (every `$flags` value compares the raw key
+strings): whatever order the map iterator delivers the keys in, the array is rebuilt in one order. -/
+theorem C20_ksort_order_independent (desc : Bool) {collected₁ collected₂ : List (List Nat)}
+    (hp : collected₁.Perm collected₂) : ksort desc collected₁ = ksort desc collected₂ :=
+  Pattern_sort_whole_perm (rawLess_strictTotal desc) hp
+
+/-- **Negation witness: a numeric sort key.** Compare the keys through a conversion under which two
+different keys get the same number (every non-numeric string counts as 0; `"1"`, `"1.0"`, `" 1"` are
+all 1) and the claim fails: for every such key function and every array holding two keys it
+identifies there are two map orders with two different results. -/
+theorem C20_ksort_numeric_key_counterexample (num : List Nat → Nat) {keys : List (List Nat)} (hn : keys.Nodup)
+    {k₁ k₂ : List Nat} (h₁ : k₁ ∈ keys) (h₂ : k₂ ∈ keys) (hne : k₁ ≠ k₂) (he : num k₁ = num k₂) :
+    ¬ (∀ c₁ c₂ : List (List Nat), c₁.Perm keys → c₂.Perm keys →
+        sortSlice (byKey (fun a b : Nat => decide (a < b)) num) c₁ = sortSlice (byKey (fun a b : Nat => decide (a < b)) num) c₂) := by
+  intro hall
+  exact hne ((Pattern_sort_key_perm_iff natLt_strictTotal num hn).1 hall k₁ h₁ k₂ h₂ he)
+
+/-- the hypotheses of the counterexample are satisfiable: the keys `width` and `depth` (as bytes) both
+count as 0 -/
+example : ¬ (∀ c₁ c₂ : List (List Nat), c₁.Perm [[119, 105, 100, 116, 104], [100, 101, 112, 116, 104]] →
+    c₂.Perm [[119, 105, 100, 116, 104], [100, 101, 112, 116, 104]] →
+    sortSlice (byKey (fun a b : Nat => decide (a < b)) (fun _ => 0)) c₁ = sortSlice (byKey (fun a b : Nat => decide (a < b)) (fun _ => 0)) c₂) :=
+  C20_ksort_numeric_key_counterexample (fun _ => 0) (k₁ := [119, 105, 100, 116, 104]) (k₂ := [100, 101, 112, 116, 104])
+    (by decide) (by decide) (by decide) (by decide) rfl
+
+/-- a strict total order exists on the sort keys used above (`<` on lengths / numbers) and on the raw
+strings (Go's `<`, bytewise) -/
+example : StrictTotal (fun a b : Nat => decide (a < b)) ∧ StrictTotal bytesLt := ⟨natLt_strictTotal, bytesLt_strictTotal⟩
+
 /-! ## (iii) nothing left behind -/
 
 /-- **No residue.** If a run reads a process-wide cell that earlier programs may have changed
@@ -316,6 +404,20 @@ translator understood every file. A new or changed loop makes this fail. -/
 theorem C20_map_ranges_classified :
     C20Sites.badSites C20Sites.table C20Sites.KnownSites Generated.C20MapRanges.sites = [] ∧
     Generated.C20MapRanges.shape = [] := by
+  decide
+
+/-- **Obligation (regenerated every run): no sort over a map-ordered slice can tie.** Every sort of a
+slice that a `for … range <map>` loop collected either orders the collected elements themselves
+(shape `whole`: `Pattern_sort_whole_perm`, nothing to argue), or is listed in `C20Sites.sortArgued`
+with exactly the comparator it has today (the sort key is injective on the collected entries:
+`Pattern_sort_key_perm_iff`), or is a listed known finding; and the translator found the sort of every
+site claimed for the pattern `sort`. A comparator that starts looking at the keys through a function —
+`numericSortKey(ki) < numericSortKey(kj)` — makes this fail (`Pattern_sort_tie_depends`: a tie shows the
+map order). -/
+theorem C20_sorts_over_map_order_tie_free :
+    C20Sites.tyingSorts C20Sites.sortArgued C20Sites.KnownSorts Generated.C20Sorts.sorts = [] ∧
+    C20Sites.sortSitesWithoutFact Generated.C20MapRanges.sites Generated.C20Sorts.sorts = [] ∧
+    Generated.C20Sorts.shape = [] := by
   decide
 
 /-- **Obligation (regenerated every run).** Every package-level variable written outside `init`
